@@ -14,6 +14,7 @@ import PkVerif.Model.Replica
                                                reports size+1) | err (does not store) | es (stores, then errors) |
                                                tr (leaves a truncated copy, reports its size; content non-empty);
                                                `cancel`: the caller cancels ctx when ReceiveBlob returns
+    statc <key,…|-> <fast|yield|sleep|block>   StatBlobs with all read replicas answering concurrently and slow callbacks
     fetch <key> | stat <key,…|-> <order|-> | enum <after|-> <limit> | remove <key,…|-> | dump
 -/
 namespace Pk.Drv.C12
@@ -169,6 +170,21 @@ def step (w : St) (ws : List String) : St × String :=
          let ord := if order.isEmpty then List.range reads.length else order
          let (out, ok) := statBlobs reads ks (orderedReports reads ks ord)
          (w, s!"{showSRs (sortSRs out)} {if ok then "ok" else "err"}")
+     | _, _ => (w, "bad-op"))
+  | ["statc", ks, mode] =>
+    -- concurrent delivery (all read replicas released at once, slow callbacks): the delivery order is
+    -- not forced, so only what does not depend on it is printed: the refs passed to fn (each once –
+    -- C12_stat_exactly_once holds for EVERY order) and that the callbacks were serialised (the model's
+    -- StatBlobs is a fold: one callback at a time under `mu`)
+    (match keyList ks, ["fast", "yield", "sleep", "block"].contains mode with
+     | some ks, true =>
+       match w.cfg with
+       | none => (w, "nocfg")
+       | some cfg =>
+         let reads := readsOf w cfg
+         let (out, ok) := statBlobs reads ks (seqReports reads ks)
+         let ksOut := (sortSRs out).map (fun e => toHexString e.1)
+         (w, s!"{if ksOut.isEmpty then "-" else ",".intercalate ksOut} {if ok then "ok" else "err"} serial")
      | _, _ => (w, "bad-op"))
   | ["enum", after, limit] =>
     (match (if after == "-" then some none else (keyArg after).map some), natArg limit with
